@@ -2,7 +2,7 @@
 (* Trace validation for Chunking: the recorded output of a real chunker run  *)
 (* is replayed through the contract's own actions.                           *)
 (*   Doc     {els, pages, minor}        the document given to the chunker    *)
-(*   Emit    {rs, index, id, ps, pe, path}   one chunk, in slice order; rs   *)
+(*   Emit    {rs, index, id, ps, pe, path [, title]}  one chunk, in slice order; rs *)
 (*           = maximal runs [first, last] of the unit numbers found in it    *)
 (*   Finish  {totals}                   the total reported by every chunk    *)
 (* Strict = TRUE : an event the contract does not allow stops the replay     *)
@@ -25,12 +25,14 @@ TraceInit == Init /\ l = 1 /\ bad = FALSE
 ChunkOf(e) ==
     [first |-> IF Len(e.rs) >= 1 THEN e.rs[1][1] ELSE consumed + 1,
      k     |-> IF Len(e.rs) >= 1 THEN e.rs[1][2] - e.rs[1][1] + 1 ELSE 0,
-     index |-> e.index, id |-> e.id, ps |-> e.ps, pe |-> e.pe, path |-> e.path]
+     index |-> e.index, id |-> e.id, ps |-> e.ps, pe |-> e.pe, path |-> e.path,
+     title |-> IF "title" \in DOMAIN e THEN e.title ELSE -1]
 
 \* the first clause of EmitOK that the event breaks ("" = none)
 EmitClause(e) ==
     LET ch == ChunkOf(e) IN
-    IF Len(e.rs) = 0 THEN "empty-chunk"
+    IF ~TitleOK(ch) THEN "title"
+    ELSE IF Len(e.rs) = 0 THEN "empty-chunk"
     ELSE IF Len(e.rs) > 1 THEN "contiguous"
     ELSE IF ch.first <= consumed THEN "repeat"
     ELSE IF ch.first > consumed + 1 THEN "gap"
